@@ -53,5 +53,9 @@ with cf.ThreadPoolExecutor(8) as ex:
             r["confirmed"] = bool(ok)
             print(json.dumps({k: v for k, v in r.items() if k not in ("pristine_tail",) or not ok}))
             allr.append(r)
-json.dump(allr, open("/tmp/mut/validation.json", "w"), indent=1)
+old = {}
+if os.path.exists("/tmp/mut/validation.json"):
+    old = {r["id"]: r for r in json.load(open("/tmp/mut/validation.json"))}
+old.update({r["id"]: r for r in allr})
+json.dump(list(old.values()), open("/tmp/mut/validation.json", "w"), indent=1)
 print("confirmed", sum(r["confirmed"] for r in allr), "of", len(allr))
